@@ -68,6 +68,13 @@ def effective_timeout(case):
     return case["timeout"] if "timeout" in case else case.get("config_timeout")
 
 
+def kwarg_coq(case):
+    """run(timeout=...) as Coq [option (option nat)]: not given / given as None / given as a number"""
+    if "timeout" not in case:
+        return "None"
+    return "(Some %s)" % opt_n(tenths(case["timeout"]))
+
+
 def run_impl(case):
     o = rc.run_scripted(dict(case, hide="both", enc="utf-8"))
     hang = bool(o.get("certain_hang")) or o["outcome"] in ("HANG", "HarnessAbort") or bool(o["hang"])
@@ -107,7 +114,7 @@ def to_coq(case, obs):
     return "(mk %s %s %s %s %s %s %s %s %s %s %s %s %s)" % (
         ct.b(case["pty"]), ct.b(bool(case.get("in"))), ct.b(case["warn"]), ct.b(case["async"]),
         ct.b(bool(case.get("start_error"))), ct.b("out" in ne), ct.b("err" in ne),
-        opt_n(tenths(case.get("timeout"))), opt_n(tenths(case.get("config_timeout"))),
+        kwarg_coq(case), opt_n(tenths(case.get("config_timeout"))),
         ct.lst([ev_coq(e) for e in case["events"]]), o, opt_n(obs["interval"]), ct.b(obs.get("text_ok", True)))
 
 
@@ -167,12 +174,12 @@ def gen_case(rng, focus=None):
     r = rng.random()
     if focus == "timeout":
         if r < 0.55:
-            case["timeout"] = rng.choice([1, 5, 0.9, 2.9])
+            case["timeout"] = rng.choice([1, 5, 0.9, 2.9, 0, None])     # 0 is a timeout; None switches config off
         if rng.random() < 0.4:
             case["config_timeout"] = rng.choice([2, 7, 0.5])
     else:
         if r < 0.3:
-            case["timeout"] = rng.choice([1, 5])
+            case["timeout"] = rng.choice([1, 5, 0, None])
         if rng.random() < 0.2:
             case["config_timeout"] = rng.choice([2, 7])
     if not pty and rng.random() < 0.04:
